@@ -92,3 +92,18 @@ PROPS["C08"] = {
     "level_note": "Square concrete per query (constant multiplier); thorough tier adds two single queries with a symbolic square. Kani default checks on.",
     "design_ref": "DESIGN.md section 4 L0/C08",
 }
+
+PROPS["C09"] = {
+    "title": "Geometry tables and constants equal their definitions",
+    "groups": [{"crate": "core", "module": "c09", "timeout_q": 600}],
+    "functions": ["chess_lookup::{knight_moves,king_moves,rook_rays,bishop_rays,pawn_quiets,pawn_attacks,pawn_attacks_moves,pawn_moves,between,line,distance}",
+                  "chess_lookup constants: ADJACENT_FILES, ADJACENT_RANKS, CASTLE_MOVES, PAWN_DOUBLE_*, BACKRANK(_BB), ROOK_CASTLE_*, CASTLE_ROOK_START/END, PROMOTION_RANK, *_CASTLE_(SAFE_)FILES",
+                  "chess_lookup_generator::{knight_moves,king_moves,rook_rays,bishop_rays,pawn_attacks,pawn_quiets}", "Color::{enpassant_capture_rank,enpassant_pawn_rank}"],
+    "bounds": "none: symbolic square / pair of squares / colour / file / rank; pawn helpers over all 2^64 occupancies (not only the 2^k relevant ones)",
+    "outside": "chess_lookup_generator::between()/line() build 4096-element Vecs through iterator chains (heap + 4096x iterator unrolling) - not encoded; the between/line tables are instead compared with the S-level definition for all 64x64 pairs, which pins every entry",
+    "level_text": "Every geometry accessor and constant is compared with a file/rank-arithmetic definition (explicit 0<=f,r<8 guards, so no wrap-around by construction) "
+                  "for a symbolic square, pair and colour; the solver covers all squares / 4096 pairs / 2^64 occupancies in one query each. "
+                  "Tables are also compared with the generator's per-square functions.",
+    "level_note": "Complete in the domain for the table-vs-definition clause. Generator agreement covers the six per-square generator functions; between()/line() generators are not encoded (stated).",
+    "design_ref": "DESIGN.md section 4 L0/C09",
+}
